@@ -232,4 +232,71 @@ ImplLatest(l, r, Dev) == IF ~HasEntries(l, r) THEN "none" ELSE ImplRange(l, r, L
 ImplFrom(l, r, i, Dev) == ImplRange(l, r, i, LatestFor(l, r), Dev)
 
 OkOrFail(v) == IF v \in {"ok", "none"} THEN v ELSE "fail"
+
+(***************************************************************************)
+(* C19: mergeability prediction (verifyMergeable) for bringing a feature   *)
+(* state with tree `tree` into reference r, and the merge once recorded.   *)
+(***************************************************************************)
+LatestUnskippedFor(l, r) == LET S == {j \in 1..Len(l) : IsFor(l[j], r) /\ ~Skipped(l, j)} IN IF S = {} THEN 0 ELSE Max(S)
+LatestPol(l) == LET S == {j \in 1..Len(l) : l[j].k = "pol"} IN IF S = {} THEN 0 ELSE Max(S)
+LatestAtt(l) == LET S == {j \in 1..Len(l) : l[j].k = "att"} IN IF S = {} THEN 0 ELSE Max(S)
+
+\* first verifier (in order) that accepts outright or with the recorder's signature still needed
+\* Deviation "MergeableThresholdOneNotPossible": the "one signature short" case is only considered for thresholds
+\* above 1, so a threshold-1 rule without approvals is answered "not possible" although an authorised recorder verifies.
+RECURSIVE FirstAccepting(_, _, _, _)
+FirstAccepting(vs, S, n, Dev) ==       \* returns [how, pr] with how \in {"nosig", "sig", "no"}
+    IF n > Len(vs) THEN [how |-> "no", pr |-> {}]
+    ELSE LET got == S \cap vs[n].pr IN
+         IF Cardinality(got) >= vs[n].thr THEN [how |-> "nosig", pr |-> got]
+         ELSE IF (vs[n].thr > 1 \/ "MergeableThresholdOneNotPossible" \notin Dev) /\ Cardinality(got) >= vs[n].thr - 1
+              THEN [how |-> "sig", pr |-> got]
+         ELSE FirstAccepting(vs, S, n + 1, Dev)
+
+\* the merge recorded by `s` as a fast-forward: a reference entry for r with the predicted tree on top of the prior state
+MergeEntry(l, r, tree, s) == [k |-> "ref", ref |-> r, s |-> s, tree |-> tree, par |-> LatestUnskippedFor(l, r)]
+MergeVerifies(l, r, tree, s, Dev) == ImplLatest(Append(l, MergeEntry(l, r, tree, s)), r, Dev) = "ok"
+Recorders == {"p1", "p2", "p3", "kU", "none"}
+
+\* the answer that is right by construction: what verification will say for every possible recorder
+MergeIdeal(l, r, tree) ==
+    IF \A s \in Recorders : MergeVerifies(l, r, tree, s, {}) THEN "nosig"
+    ELSE IF \E s \in Recorders : MergeVerifies(l, r, tree, s, {}) THEN "sig" ELSE "no"
+
+\* as coded: "nosig" | "sig" | "no".  Deviation "MergeableGlobalRuleNoRecorderCredit": when the root declares global
+\* rules the all-principals verifier answers first ("no signature needed"), so the recorder's own signature is never
+\* credited towards a global threshold and the delegation rule of the branch is not consulted for the prediction.
+MergePredictI(l, r, tree, Dev) ==
+    LET pp == LatestPol(l) a == LatestAtt(l) from == LatestUnskippedFor(l, r) IN
+    IF pp = 0 THEN "no"
+    ELSE LET p == Pol[l[pp].v]
+             AtPath(y) == y.ref = r /\ y.from = from /\ y.tree = tree
+             StmtOK(y) == y.sref = y.ref /\ y.sfrom = y.from /\ y.stree = y.tree
+             auths == IF a = 0 THEN {} ELSE {y \in l[a].apps : AtPath(y)}
+             crs   == IF a = 0 THEN {} ELSE {y \in l[a].crs : AtPath(y) /\ AppTrusted(p, y.app)}
+             S == (UNION {x.by : x \in auths} \cup UNION {x.approvers : x \in crs}) \ {"kU", "none"}
+             hasGlobal == p.gthr # {} \/ p.bfp # {}
+             deleg == p.rules[r]
+         IN IF \E y \in auths : ~StmtOK(y) THEN "no"
+            ELSE IF \E y \in crs : y.signer # p.apps[y.app].key \/ ~StmtOK(y) THEN "no"
+            ELSE IF ~hasGlobal /\ deleg = <<>> THEN "nosig"                      \* unprotected
+            ELSE IF hasGlobal /\ "MergeableGlobalRuleNoRecorderCredit" \notin Dev THEN MergeIdeal(l, r, tree)
+            ELSE LET acc == IF hasGlobal THEN [how |-> "nosig", pr |-> S \cap p.all]   \* the exhaustive verifier accepts first
+                            ELSE FirstAccepting(deleg, S, 1, Dev) IN
+                 IF acc.how = "no" THEN "no"
+                 ELSE IF \E gr \in p.gthr : r \in gr.refs /\ Cardinality(acc.pr) < gr.thr - (IF acc.how = "sig" THEN 1 ELSE 0) THEN "no"
+                 ELSE acc.how
+
+\* Layer D: what the answer must mean once the merge is recorded
+\* approvers bound to the predicted change, and the principals some rule authorises for r, under the latest policy
+MergeApprovers(l, r, tree) == Approvers(Append(l, MergeEntry(l, r, tree, "none")), Len(l) + 1, TRUE)
+AuthPrincipals(l, r) == LET pp == LatestPol(l) IN
+                        IF pp = 0 THEN {} ELSE UNION {Pol[l[pp].v].rules[r][n].pr : n \in DOMAIN Pol[l[pp].v].rules[r]}
+MergeAgrees(l, r, tree, answer, verifies(_)) ==
+    CASE answer = "nosig" -> \A s \in Recorders : verifies(s)
+      [] answer = "no"    -> \A s \in Recorders : ~verifies(s)
+      [] answer = "sig"   -> LET pp == LatestPol(l) IN
+                             IF pp # 0 /\ (Pol[l[pp].v].gthr # {} \/ Pol[l[pp].v].bfp # {})
+                             THEN (\E s \in Recorders : verifies(s)) /\ ~(\A s \in Recorders : verifies(s))    \* (with global rules: some, not all)
+                             ELSE \A s \in Recorders : verifies(s) <=> (s \in AuthPrincipals(l, r) /\ s \notin MergeApprovers(l, r, tree))
 =============================================================================
